@@ -1,7 +1,7 @@
 import ExprModel.Proofs.RawSound
 /-
 Helper lemmas for C16: the types table of an environment, pointwise (no iteration order), for both
-variants of the code; what the method loop leaves behind; unfolding of the repaired checker functions.
+variants of the code; what the method loop leaves behind; unfolding of the asIs checker functions.
 -/
 namespace ExprModel.C16
 open ExprModel Table
@@ -240,20 +240,20 @@ theorem identType_ok {d : Defects} {tbl : Table} {n : String} {τ : Option Ty}
         cases h; rfl
 
 theorem fieldsAt_repaired (dd : Ty) (n : String) :
-    fieldsAt .repaired dd n =
-      if (rawAt .repaired (dd.depth + 1) dd n).isSome then resolvedTag .repaired dd.deref n else none := rfl
+    fieldsAt .asIs dd n =
+      if (rawAt .asIs (dd.depth + 1) dd n).isSome then resolvedTag .asIs dd.deref n else none := rfl
 
 theorem resolvedTag_repaired (t : Ty) (n : String) :
-    resolvedTag .repaired t n =
+    resolvedTag .asIs t n =
       match reflField t n with
       | .found f => if f.exported then some { ty := some f.ty } else none
       | .ambiguous => some { ambiguous := true }
       | .notFound => none := by
   unfold resolvedTag
-  cases reflField t n <;> simp [Defects.repaired]
+  cases reflField t n <;> simp [Defects.asIs]
 
 theorem fieldsAt_repaired_some {dd : Ty} (hd : dd.deref = dd) {n : String} {g : Tag}
-    (h : fieldsAt .repaired dd n = some g) (ha : g.ambiguous = false) :
+    (h : fieldsAt .asIs dd n = some g) (ha : g.ambiguous = false) :
     ∃ f, reflField dd n = .found f ∧ f.exported = true ∧ g = { ty := some f.ty } := by
   rw [fieldsAt_repaired] at h
   split at h
@@ -297,20 +297,20 @@ theorem Ty.kind_map_iff {t : Ty} : t.kind = .map ↔ ∃ k v, t.core = .map k v 
   unfold Ty.kind
   cases h : t.core <;> simp
 
-theorem fetchBase_repaired (t : Ty) : t.fetchBase .repaired = t.deref := rfl
+theorem fetchBase_repaired (t : Ty) : t.fetchBase .asIs = t.deref := rfl
 
 theorem fieldType_repaired_succ (k : Nat) (t : Ty) (n : String) :
-    fieldType .repaired (k + 1) t n =
+    fieldType .asIs (k + 1) t n =
       match t.deref.kind with
       | .iface => some interfaceType
-      | .map => if (t.deref.mapKey?.map (stringKeyOk .repaired)).getD false then t.deref.elem? else none
+      | .map => if (t.deref.mapKey?.map (stringKeyOk .asIs)).getD false then t.deref.elem? else none
       | .struct =>
         match reflField t.deref n with
         | .found f => if f.exported then some f.ty else none
         | _ => none
       | _ => none := by
   unfold fieldType
-  simp only [Defects.repaired, Bool.false_eq_true, if_false, Bool.false_or]
+  simp only [Defects.asIs, Bool.false_eq_true, if_false, Bool.false_or]
   cases t.deref.kind <;> rfl
 
 /-- accepted at top level: as an identifier, or (a method of the environment) as a function name -/
@@ -377,7 +377,7 @@ theorem createTypesTable_nodup (d : Defects) (σ : Table → Table) (hσ : IsOrd
       · exact fieldsRaw_nodup d σ hσ _ _
       · exact nodupKeys_filterMap _ _ (fieldsRaw_nodup d σ hσ _ _)
 
-theorem allAccepted_asIs (t : Ty) (n : String) : AllAccepted .asIs t n := by
+theorem allAccepted_asIs (t : Ty) (n : String) : AllAccepted .asWas t n := by
   intro _ _ _ _; rfl
 
 theorem embWF_of_levels (t : Ty) (n : Nat) (hdeep : ∀ d, n ≤ d → levelTys d t = [])
